@@ -20,6 +20,10 @@ class BodyError(Exception):
     """The exception injected inside a with-body."""
 
 
+class BodyInterrupt(BaseException):
+    """Like KeyboardInterrupt / SystemExit: leaves the body without being an Exception."""
+
+
 class Interp:
     def __init__(self, workdir, col):
         self.workdir = workdir
@@ -141,7 +145,7 @@ class Interp:
             if p.n_close != want or p.n_join != want:
                 raise Violation("c19.pool_close", f"enable_pool(close_pool={lvl['close_pool']}) left the pool with close={p.n_close} join={p.n_join} "
                                 f"after a {how} exit", {"close_pool": lvl["close_pool"], "exit": how})
-        self.col.nontrivial.add((lvl["kind"], how, len(self.stack) + 1, self.primed))
+        self.col.nontrivial.add((lvl["kind"], how if exc is None else type(exc).__name__, len(self.stack) + 1, self.primed))
 
     def op_exit_normal(self):
         if not self.stack:
@@ -155,13 +159,15 @@ class Interp:
         while self.stack:
             self._exit_level(exc)
 
-    def op_raise_in_body(self):
+    def op_raise_in_body(self, base_exception=False):
         if not self.stack:
             return
-        self.ops.append(("raise_in_body", {}))
+        self.ops.append(("raise_in_body", {"base_exception": base_exception}))
         try:
-            raise BodyError("injected")
-        except BodyError as e:
+            # an ordinary exception, or one that is NOT an Exception subclass (Ctrl-C / sys.exit() in the body)
+            raise (BodyInterrupt("injected") if base_exception else BodyError("injected"))
+        except (BodyError, BodyInterrupt) as e:
+            self.col.fault("body_base_exception" if base_exception else "body_exception")
             self._unwind(e)
 
     def op_sample(self, sampler: str, crash_like_at):
@@ -219,9 +225,9 @@ def make_machine(interp_factory, workdir, col):
         def exit_normal(self):
             self.do("exit_normal", )
 
-        @rule()
-        def raise_in_body(self):
-            self.do("raise_in_body", )
+        @rule(base_exception=st.booleans())
+        def raise_in_body(self, base_exception):
+            self.do("raise_in_body", base_exception=base_exception)
 
         @rule(sampler=st.sampled_from(["importance", "importance", "smc"]), crash_like_at=st.one_of(st.none(), st.none(), st.integers(0, 4)))
         def sample(self, sampler, crash_like_at):
